@@ -45,13 +45,13 @@ PROBE_INVS = ["EvalIsDenote", "ParseRender", "ValuationsComplete", "ParseStable"
 # ----------------------------------------------------------------------------------------
 
 def _imports():
-    global Vector3, Block, Message, ml, compile_filter, HippoHTTPFlow, SerializedCapData, tflow, tutils
+    global Vector3, Block, Message, ml, compile_filter, HippoHTTPFlow, CapData, tflow, tutils
     from hippolyzer.lib.base.datatypes import Vector3
     from hippolyzer.lib.base.message.message import Block, Message
     from hippolyzer.lib.proxy import message_logger as ml
     from hippolyzer.lib.proxy.message_filter import compile_filter
     from hippolyzer.lib.proxy.http_flow import HippoHTTPFlow
-    from hippolyzer.lib.proxy.caps import SerializedCapData
+    from hippolyzer.lib.proxy.caps import CapData
     from mitmproxy.test import tflow, tutils
 
 
@@ -120,8 +120,8 @@ def build_entry(e, eid=0):
         ent = ml.EQMessageLogEntry({"message": e["name"], "body": body}, None, None)
     elif kind == "HTTP":
         fl = tflow.tflow(req=tutils.treq(path=b"/%d" % eid), resp=tutils.tresp())
-        fl.metadata["cap_data_ser"] = SerializedCapData(cap_name=e["name"])
-        ent = ml.HTTPMessageLogEntry(HippoHTTPFlow.from_state(fl.get_state(), None))
+        fl.metadata["cap_data"] = CapData(cap_name=e["name"])
+        ent = ml.HTTPMessageLogEntry(HippoHTTPFlow(fl))
     else:
         raise common.MachineryError("bad entry kind %r" % kind)
     ent.meta.update(meta)
@@ -235,13 +235,8 @@ def atom_cause(a, impl, exc, hasx):
 
 
 def atom_features(a, impl, exc, hasx, stage, via):
-    f = {"kind": "atom", "cause": atom_cause(a, impl, exc, hasx), "op": a["op"] or "bare", "where": atom_where(a),
-         "lit": a["lit"]["ty"], "via": via}
-    if stage == "imported":
-        f["stage"] = stage
-    if impl == "E":
-        f["exc"] = exc.split(":")[0]
-    return f
+    """`cause` + operator + selector class identify the defect; everything else goes to the detail."""
+    return {"kind": "atom", "cause": atom_cause(a, impl, exc, hasx), "op": a["op"] or "bare", "where": atom_where(a)}
 
 
 class Agg:
@@ -536,8 +531,35 @@ def _edge_cause(hasx, exc):
     return "view-mismatch"
 
 
+_PURE_COMPILE = {}
+
+
+def _memo_compile(text):
+    """compile_filter is a pure function of its text and builds a fresh arpeggio parser per call (~1.5 ms);
+    the edge replay creates ~10^5 loggers, each compiling "" in its constructor.  The real function
+    computes every distinct text once per process; its exceptions are replayed as well."""
+    r = _PURE_COMPILE.get(text)
+    if r is None:
+        r = _PURE_COMPILE[text] = impl_call(_REAL_COMPILE, text)
+        if r[0] != "ok":
+            try:
+                _REAL_COMPILE(text)
+            except Exception as e:  # keep the real exception object to re-raise
+                r = _PURE_COMPILE[text] = ("raise", e)
+    if r[0] == "ok":
+        return r[1]
+    raise r[1]
+
+
+_REAL_COMPILE = None
+
+
 def _replay_edges(edge_ids):
+    global _REAL_COMPILE
     _imports()
+    if _REAL_COMPILE is None:
+        _REAL_COMPILE = ml.compile_filter
+        ml.compile_filter = _memo_compile       # worker process only (fork); the tables and traces use the plain function
     g, W = _G, _W
     agg = Agg()
     n = 0
@@ -885,7 +907,7 @@ def _rand_field(rng, var):
     if t == T.MVT_VARIABLE:
         n = rng.choice([0, 1, 5, 20])
         if var.probably_text and rng.random() < 0.7:
-            return "".join(rng.choice("abc xyz") for _ in range(n)) + ("\x00" if n else "")
+            return "".join(rng.choice("abc xyz") for _ in range(n))
         return bytes(rng.randrange(256) for _ in range(n))
     raise common.MachineryError("unknown template variable type %r" % (t,))
 
@@ -945,24 +967,29 @@ def _preserve_traces(chk: Check, n_lludp, n_other):
             skipped += 1      # not a loggable message of this driver (codec limits are C01's subject)
             continue
         src = rng.choice(["built", "parsed-deferred", "parsed"])
-        twin = msg
-        if src != "built":
-            # the logged message stays untouched (unparsed if deferred); its twin is projected
-            de = desers[0 if src == "parsed-deferred" else 1]
-            st, m2 = impl_call(de.deserialize, wire)
-            st2, twin = impl_call(de.deserialize, wire)
-            if st != "ok" or st2 != "ok":
-                skipped += 1
-                continue
-            m2.direction = twin.direction = msg.direction
-            msg = m2
-        st, before = impl_call(proj_message, twin, ser)
+        de = desers[0 if src == "parsed-deferred" else 1]
+        # twins: the logged message is never touched by the projections (it stays unparsed if deferred)
+        st, tw = impl_call(lambda: [de.deserialize(wire) for _ in range(3)])
+        if st != "ok":
+            skipped += 1
+            continue
+        for m in tw:
+            m.direction = msg.direction
+        st, rewire = impl_call(lambda: (tw[2].blocks, bytes(ser.serialize(tw[2])))[1])
+        if st != "ok" or rewire != wire:
+            skipped += 1      # parse -> serialize is not the identity on this datagram: C01/C02's subject, not a loggable input here
+            continue
+        if src == "built":
+            logged, twin1, twin2 = msg, msg, msg
+        else:
+            logged, twin1, twin2 = tw
+        st, before = impl_call(proj_message, twin1, ser)
         if st != "ok" or '"wire": "unserializable"' in before:
             skipped += 1
             continue
         made += 1
-        ent = ml.LLUDPMessageLogEntry(msg, None, None)
-        ebefore = proj_entry(ml.LLUDPMessageLogEntry(twin, None, None), ser)
+        ent = ml.LLUDPMessageLogEntry(logged, None, None)
+        ebefore = proj_entry(ml.LLUDPMessageLogEntry(twin2, None, None), ser)
         st, r = impl_call(ent.freeze)
         if st != "ok":
             evs.append({"ev": "Same", "i": len(evs), "what": "freeze", "before": before, "after": "raised " + r})
@@ -1001,12 +1028,26 @@ def _preserve_traces(chk: Check, n_lludp, n_other):
     return traces
 
 
+def _preserve_cause(before, after):
+    """Classification only: what kind of difference is it?"""
+    after = str(after)
+    if after.startswith("raised "):
+        return "raised"
+    import re
+    xs = re.findall(r'\\"(x[0-9a-f]*)\\"', before)
+    ls = re.findall(r'\\"(\[(?:i\d+,?)*\])\\"', after)
+    if ls and len(xs) > len(re.findall(r'\\"(x[0-9a-f]*)\\"', after)):
+        return "bytes-field-becomes-int-list"
+    return "differs"
+
+
 def _b2(chk: Check, agg: Agg, traces, W, label):
     if not traces:
         return
+    shards = 4 if chk.tier == "quick" else 12
     cfg = "SPECIFICATION TraceSpec\n" + _consts(W=W) + "POSTCONDITION TraceAccepted\nCHECK_DEADLOCK FALSE\n"
     slim = [[{k: v for k, v in ev.items() if k not in ("exc", "text")} for ev in t] for t in traces]
-    acc, rej, results = common.validate_traces("FilterLog_Trace", cfg, slim, chk.scratch, shards=common.NCPU,
+    acc, rej, results = common.validate_traces("FilterLog_Trace", cfg, slim, chk.scratch, shards=shards,
                                                tag="".join(c for c in label if c.isalnum()))
     fails = {}
     for r in results:
@@ -1038,7 +1079,7 @@ def _b2(chk: Check, agg: Agg, traces, W, label):
             agg.add("B2 %s: %s" % (label, clause), {"kind": "grammar", "cause": {"Parse.accepts": "refused-well-formed" if not ev["ok"] else "accepted-ill-formed"}.get(clause, "grouping")},
                     {"filter": ev["text"], "impl_ok": ev["ok"], "impl_shape": ev["shape"]})
         elif ev["ev"] == "Same":
-            agg.add("B2 %s: %s" % (label, clause), {"kind": "preserve", "what": ev["what"], "cause": "raised" if str(ev["after"]).startswith("raised ") else "differs"},
+            agg.add("B2 %s: %s" % (label, clause), {"kind": "preserve", "what": ev["what"], "cause": _preserve_cause(ev["before"], ev["after"])},
                     {"before": ev["before"][:1500], "after": str(ev["after"])[:1500], "entry": ev.get("e")})
         else:
             hasx = any("inapplicable-comparison-in-force" in f["fail"] for f in fl)
@@ -1090,12 +1131,19 @@ def run(chk: Check):
     ]
     agg = Agg()
     quick = chk.tier == "quick"
+    import time
+    t0 = [time.time()]
+
+    def lap(name):
+        chk.notes.append("phase %s: %.1fs" % (name, time.time() - t0[0]))
+        t0[0] = time.time()
     # ---- part 1: expression semantics
-    _tables(chk, agg, "LLUDP", 2, 5 if quick else 6, ("tree", "atom", "toks"), "LLUDP d2")
+    _tables(chk, agg, "LLUDP", 2, 4 if quick else 6, ("tree", "atom", "toks"), "LLUDP d2")
     _tables(chk, agg, "EQ", 1 if quick else 2, 1, ("tree",), "EQ")
     _tables(chk, agg, "HTTP", 1 if quick else 2, 1, ("tree",), "HTTP")
     if not quick:
         _tables(chk, agg, "EQ", 3, 1, ("tree",), "EQ d3 (model only)", mc_only=True)
+    lap("tables")
     # ---- part 2: the log machine
     if quick:
         _machine(chk, agg, 2, 4, 6, "{1,2,3,4}", "{1,2,3,4,5,6,7}", "W2")
@@ -1104,11 +1152,12 @@ def run(chk: Check):
         _machine(chk, agg, 2, 4, 8, "{1,2,3,4}", "{1,2,3,4,5,6,7}", "W2")
         _machine(chk, agg, 1, 4, 7, "{1,2,3,4}", "{1,2,3,4,5,6,7}", "W1")
         _machine(chk, agg, 3, 5, 7, "{1,2,4}", "{1,2,4,5,6}", "W3")
+    lap("machine")
     # ---- part 3: code -> spec
     n = 1 if quick else 8
-    _b2(chk, agg, _expr_traces(chk, 40 * n, 6, 4), 2, "random filters")
+    _b2(chk, agg, _expr_traces(chk, 40 * n, 6, 4) + _preserve_traces(chk, 120 * n, 60 * n), 2, "random filters + preservation")
     for W in ((1, 3) if quick else (1, 2, 3, 5)):
         _b2(chk, agg, _walk_traces(chk, 30 * n, 40, W), W, "walks W%d" % W)
-    _b2(chk, agg, _preserve_traces(chk, 120 * n, 60 * n), 2, "preservation")
+    lap("traces")
     agg.flush(chk)
     chk.cov["exhaustive"] = True
